@@ -163,7 +163,7 @@ PROPS = {
         ],
     },
     "C09": {
-        "lean_modules": ["DocsModel.Props.C09", "DocsModel.Props.C09Chunks"],
+        "lean_modules": ["DocsModel.Props.C09", "DocsModel.Props.C09Chunks", "DocsModel.Props.C09Gossip"],
         "trusted_base": COMMON_TRUST + [
             "postcard 1.1.3 and the serde derives are modelled (layout read from the sources and confirmed by the differential check), not verified; tokio_util FramedRead is modelled as 'append chunk, decode while possible'",
             "hook H3 (export of the private frame codec)",
